@@ -463,6 +463,9 @@ func c09Protocol(c *Ctx, fn *ssa.Function, ren *ssa.Call) {
 		}
 		ok, why := errorBlocksTargets(s.call, []*ssa.Call{ren})
 		r.Check(ok, "O-2", fk+"#"+s.name+"-error-blocks-rename", c.P.Pos(s.call.Pos()), "a failed "+s.name+" never reaches the Rename", "after a failed "+s.name+" the Rename can still run and replace the data file with an incomplete one: "+why)
+		// and the failure is what the caller gets to see
+		okp, whyp := failurePropagates(s.call)
+		r.Check(okp, "O-2", fk+"#"+s.name+"-error-returned", c.P.Pos(s.call.Pos()), "a failed "+s.name+" makes the function return a non-nil error", "a failed "+s.name+" is not reported to the caller (the save would report success although nothing was written): "+whyp)
 	}
 	// nil is returned only after the rename succeeded
 	ei := errorIndex(fn)
